@@ -101,3 +101,14 @@ Fixpoint separated (ts : list tok) : bool :=
   end.
 
 Definition clean (ts : list tok) : bool := forallb tok_ok ts && separated ts.
+
+(* ---- dispatch oracle on an observed request against a compiled router ----
+   exact = the request addressed the documented verb/path of method [mn] of controller [cn];
+   calls = the controller methods the echoing controllers recorded. *)
+Definition prop_C02_dispatch (exact : bool) (cn mn : str) (calls : list (str * str)) : bool :=
+  if exact then
+    match calls with
+    | [(c, m)] => str_eqb c cn && str_eqb m mn
+    | _ => false
+    end
+  else is_nil calls.
